@@ -519,7 +519,7 @@ func hasCompressed(w *Wiring) bool {
 // addExploration appends the generated structures, the seeds and their mutations.
 func addExploration(ctx *core.Ctx, pl *plan) error {
 	// generated structures
-	sizes := []int{1, 2, 3, 4, 5, 6, 30, 300}
+	sizes := []int{1, 2, 3, 4, 5, 6, 7, 8, 30, 300}
 	if ctx.Thorough() {
 		sizes = append(sizes, 1000, 20000)
 	}
